@@ -327,3 +327,24 @@ fn u17_8_write_header_layout() {
     assert!(buf[16 + i] == (sb as u32).to_le_bytes()[i], "string block size at +16");
     assert!(buf[20 + i] == 0xAA, "nothing beyond the header");
 }
+
+
+// binary-searched key lookup: the order create_sorted_key_map sorts by is the order get_record_by_key_binary_search searches by,
+// so every stored key is found at a position carrying that key (keys on both sides of 2^31 included)
+// @harness unit=U17.9 props=C17 kind=bounded bound="3 keyed records, every u32 key value, every order, duplicates allowed" timeout=900 target="parser.rs: create_sorted_key_map sort statement + get_record_by_key_binary_search search statement (E11 blocks)" oracle=dbc_keys
+#[kani::proof]
+#[kani::unwind(6)]
+#[kani::stub(alloc::fmt::format, stub_format)]
+fn u17_9_sorted_lookup_finds_every_key() {
+    let k: [u32; 3] = kani::any();
+    let v: Vec<(Key, usize)> = vec![(k[0], 0), (k[1], 1), (k[2], 2)];
+    let sorted = blk_key_sort(v);
+    assert!(sorted.len() == 3, "sorting keeps every entry");
+    let j: usize = kani::any();
+    kani::assume(j < 3);
+    match blk_key_binary_search(&sorted, k[j]) {
+        Ok(pos) => { assert!(pos < 3 && sorted[pos].0 == k[j], "the position found carries the key");
+                     assert!(sorted[pos].1 < 3 && k[sorted[pos].1] == k[j], "and refers to a record with that key"); }
+        Err(_) => assert!(false, "a stored key is found"),
+    }
+}
